@@ -47,11 +47,11 @@ def _truth(cond, env):
     return None
 
 
-def workset_rule(chk, db, rule_id):
+def workset_rule(chk, db, rule_id, classes=CLASSES):
     n = 0
     for fns in db.load_all().values():
         for f in fns:
-            if f.cls not in CLASSES:
+            if f.cls not in classes:
                 continue
             for q in f.walk():
                 if q.get("k") != "ConditionalOperator":
